@@ -76,6 +76,14 @@ def stage_hyp(ctx):
     hyp_drive(ctx, cases(), judge, n)
 
 
+def stage_face_axes(ctx):
+    """Deep cells on the rays of azimuth m*18 degrees of every face's own plane coordinates (gens.pts_face_axes): the
+    centre's polar and Cartesian forms disagree first there, and only the last resolutions resolve it."""
+    strat = st.builds(lambda p, r: {"lon": p["lon"], "lat": p["lat"], "res": r, "cls": p["cls"]},
+                      gens.pts_face_axes(), st.sampled_from([22, 25, 26, 27, 27, 28, 28, 28, 29, 29, 29, 29]))
+    hyp_drive(ctx, strat, judge, 800 if ctx.tier == "quick" else 8000)
+
+
 def stage_boundary(ctx):
     """Cells containing the places where the library's own branches flip (lib/boundary.py)."""
     from lib import boundary
@@ -111,7 +119,8 @@ def stage_edge_blocks(ctx):
 
 
 def plan(tier):
-    return [Stage("enum", 16, stage_enum, cost=10), Stage("hyp", 16, stage_hyp, cost=5), Stage("boundary", 16, stage_boundary, cost=4), Stage("edge_blocks", 15, stage_edge_blocks, cost=6)]
+    return [Stage("enum", 16, stage_enum, cost=10), Stage("hyp", 16, stage_hyp, cost=5), Stage("boundary", 16, stage_boundary, cost=4), Stage("edge_blocks", 15, stage_edge_blocks, cost=6),
+            Stage("face_axes", 16, stage_face_axes, cost=4)]
 
 
 def replay(rec, col):
